@@ -37,7 +37,7 @@ Definition show_plain_completion (x : output) : list string :=
 
 Record scase := { sk_rmin : N; sk_rmax : N; sk_script : list sevent }.
 Definition eval_scase (k : scase) : string :=
-  let cfg := {| cfg_cap := 4; cfg_res := 1000000 |} in
+  let cfg := {| cfg_cap := 64; cfg_res := 1000000 |} in
   let '(x, o, ok) := srun_eager cfg (sinit 1 (sk_rmin k) (sk_rmax k)) (sk_script k) in
   show_list show_pstate " " (port_trace (init_outputs ++ o)) ++ "|" ++
   show_list (fun s => s) " " (flat_map show_plain_completion o) ++ "|" ++
